@@ -287,6 +287,33 @@ def record_extra(rng, g, k, D, N, C, x, y, m) -> List[List[dict]]:
         except Exception as ex:
             evs.append(dict(ev="ax", ax="accepted", loss=name, D=D, N=N, C=C, exc=True, what="module with norm", err=f"{type(ex).__name__}: {ex}"[:120]))
         trace(name, evs)
+    # overlap measures accept the target as label map (N, ..., X), binary map (N, 1, ..., X) or one-hot scores (N, C, ..., X), and binary
+    # predictions as one foreground channel or as two channels: every form of the same segmentation gives the same value, identical ones give 1
+    try:
+        Cn = max(C, 2)
+        lab = torch.randint(0, Cn, (N,) + tuple(shape[2:]), generator=g)
+        onehot = torch.nn.functional.one_hot(lab, Cn).movedim(-1, 1).float()
+        pred = torch.rand((N, Cn) + tuple(shape[2:]), generator=g).softmax(1)
+        wmap = torch.rand((N,) + tuple(shape[2:]), generator=g) + 0.5
+        evs = []
+        # (dice_score / dice_loss document identical shapes of input and target: the Tversky family is the one with several target forms)
+        for nm, fn in (("tversky_index", lambda p_, t_, **kw: L.tversky_index(p_, t_, alpha=0.3, beta=0.7, **kw)),
+                       ("tversky_index[dice]", lambda p_, t_, **kw: L.tversky_index(p_, t_, **kw)),
+                       ("tversky_loss", lambda p_, t_, **kw: L.tversky_loss(p_, t_, alpha=0.3, beta=0.7, **kw))):
+            evs.append(dict(ev="ax", ax="equals", loss=nm + "[target forms]", D=D, N=N, C=Cn, v1=cap(fn(pred, lab)), v2=cap(fn(pred, onehot)), what="label map target = one-hot target"))
+            evs.append(dict(ev="ax", ax="equals", loss=nm + "[target forms]", D=D, N=N, C=Cn, v1=cap(fn(pred, lab, weight=wmap)), v2=cap(fn(pred, onehot, weight=wmap.unsqueeze(1))),
+                            what="weight map (N, ...) = (N, 1, ...)"))
+            ident = float(fn(onehot, lab))
+            evs.append(dict(ev="ax", ax="equals", loss=nm + "[target forms]", D=D, N=N, C=Cn, v1=cap(ident), v2=cap(0.0 if nm.endswith("loss") else 1.0), what="identical segmentations (label map target)"))
+            if Cn == 2:
+                fg = pred[:, 1:2]
+                binm = lab.unsqueeze(1).float()
+                evs.append(dict(ev="ax", ax="equals", loss=nm + "[target forms]", D=D, N=N, C=Cn, v1=cap(fn(fg, binm)), v2=cap(fn(pred, binm)), what="foreground channel = two-channel prediction (binary target)"))
+                evs.append(dict(ev="ax", ax="equals", loss=nm + "[target forms]", D=D, N=N, C=Cn, v1=cap(fn(fg, lab)), v2=cap(fn(fg, binm)), what="label map = binary map for a foreground prediction"))
+                evs.append(dict(ev="ax", ax="equals", loss=nm + "[target forms]", D=D, N=N, C=Cn, v1=cap(fn(fg, onehot)), v2=cap(fn(fg, binm)), what="one-hot target = binary map for a foreground prediction"))
+    except Exception as ex:
+        evs.append(dict(ev="ax", ax="accepted", loss="overlap[target forms]", D=D, N=N, C=max(C, 2), exc=True, what="target forms", err=f"{type(ex).__name__}: {ex}"[:140]))
+    trace("overlap[target forms]", evs)
     # the windowed and information-theoretic loss MODULES are their functional forms with the constructor's options (every alias of an option)
     mods = [("LCC[module]", lambda: LI.LCC(kernel_size=3)(x, y), lambda: L.lcc_loss(x, y, kernel_size=3)),
             ("LCC[module,mask]", lambda: LI.LCC(kernel_size=3)(x, y, mask=ms), lambda: L.lcc_loss(x, y, mask=ms, kernel_size=3)),
